@@ -55,6 +55,9 @@ class C07(Check):
 
     def preload(self):
         air.preload()
+        from checks import c19
+
+        c19.preload_cotenant()
 
     def budget(self, tier):
         return 150.0 if tier == "quick" else 1500.0
@@ -113,7 +116,12 @@ class C07(Check):
             schedule = []
             while len(schedule) < total:
                 schedule += [s.randrange(4)] * s.randrange(1, 12)
-        return {"knobs": {"terminals": terms, "entropy_seed": k.getrandbits(32), "second_observer": False}, "ops": ops, "schedule": schedule}
+        case = {"knobs": {"terminals": terms, "entropy_seed": k.getrandbits(32), "second_observer": False}, "ops": ops, "schedule": schedule}
+        if k.random() < 0.2:
+            from checks import c19
+
+            case["cotenant"] = c19.gen_cotenant(streams["cotenant"])
+        return case
 
     def sample(self, case):
         return {"knobs": case["knobs"], "schedule_len": len(case.get("schedule", [])),
@@ -122,11 +130,19 @@ class C07(Check):
                                   for o in case["ops"]][:10]}
 
     def simplify(self, case):
+        if case.get("cotenant"):
+            yield {kk: v for kk, v in case.items() if kk != "cotenant"}
         if case.get("schedule"):
             yield dict(case, schedule=[])
 
     def execute(self, case):
         res = core.RunResult()
+        co = case.get("cotenant") or []
+        if co:
+            from checks import c19
+
+            c19.run_cotenant(co)
+            res.fault("cotenant_library_calls", len(co))
         rx = air.Receiver(case["knobs"], res, "C07")
         CRC32 = air.CRC32
         # per (term, ts) stream of transmissions, in op order
@@ -273,6 +289,9 @@ class C08(Check):
 
     def preload(self):
         air.preload()
+        from checks import c19
+
+        c19.preload_cotenant()
 
     def arms(self, tier):
         if tier == "quick":
@@ -392,7 +411,12 @@ class C08(Check):
                     idx[sk] += 1
                     if rates and f.random() < rates.get("clock_jump", 0):
                         ops.append({"kind": "clock_jump", "dt": f.choice([-86400.0, -1.0, 3600.0, 1e9])})
-        return {"knobs": knobs, "ops": ops}
+        case = {"knobs": knobs, "ops": ops}
+        if k.random() < 0.2:
+            from checks import c19
+
+            case["cotenant"] = c19.gen_cotenant(streams["cotenant"])
+        return case
 
     def sample(self, case):
         return {"knobs": case["knobs"], "n_ops": len(case["ops"]),
@@ -400,6 +424,8 @@ class C08(Check):
 
     def simplify(self, case):
         kn = case["knobs"]
+        if case.get("cotenant"):
+            yield {kk: v for kk, v in case.items() if kk != "cotenant"}
         if kn.get("raising_observer"):
             yield dict(case, knobs={kk: v for kk, v in kn.items() if kk != "raising_observer"})
         if len(kn.get("terminals", [])) > 1:
@@ -413,6 +439,12 @@ class C08(Check):
     def execute(self, case):
         res = core.RunResult()
         kn = case["knobs"]
+        co = case.get("cotenant") or []
+        if co:
+            from checks import c19
+
+            c19.run_cotenant(co[: len(co) // 2])
+            res.fault("cotenant_library_calls", len(co))
         rx = air.Receiver(kn, res, "C08")
         if kn.get("dropped"):
             res.fault("drop", kn["dropped"])
@@ -423,6 +455,8 @@ class C08(Check):
         S = {}
         nbursts = 0
         for i, op in enumerate(case["ops"]):
+            if co and i == len(case["ops"]) // 2:
+                c19.run_cotenant(co[len(co) // 2:])
             if op["kind"] == "clock_jump":
                 rx.clock["skew"] += op["dt"]
                 res.fault("clock_jump")
